@@ -7,6 +7,7 @@ package c01
 
 import (
 	"fmt"
+	"strings"
 
 	"verif/props/proto"
 	"verif/simnet"
@@ -124,6 +125,23 @@ func gen(tier string) []proto.Item {
 				grs = append(grs, gr{d, vi.TEForm})
 			}
 			for _, g := range grs {
+				if !vi.V6 && !strings.HasPrefix(g.form, "sack") {
+					// the other address family: the reply this probe would get, carried in an IPv6 datagram between the IPv4-mapped
+					// forms of its addresses (an ICMP error: as its ICMPv6 counterpart quoting an IPv6 header between the mapped
+					// forms of the quoted addresses, the quoted identification in the payload-length field), INSTEAD of the
+					// genuine reply: nothing of an IPv4 run, the hop stays empty (capture filtering off)
+					from := proto.Router(false, 0, g.ttl).String()
+					s := base(v, r)
+					if g.ttl == d {
+						from = s.Target().String()
+					}
+					s.FiltersOff = true
+					s.Hops = map[int]proto.HopSpec{g.ttl: {Form: "v6mapped:" + g.form, From: from, Tag: "other-family"}}
+					for t := g.ttl + 1; t <= r.last && g.ttl == d; t++ {
+						s.Hops[t] = s.Hops[g.ttl]
+					}
+					items = append(items, proto.Item{Scn: s, Class: fmt.Sprintf("%s/%s/%s/ipv6-datagram-with-mapped-addresses/instead", v, rtag, g.form)})
+				}
 				for _, field := range simnet.Fields(vi.Kind, g.form) {
 					if relaxedSkips(vi, field) {
 						continue
